@@ -289,18 +289,24 @@ class PathRun:
                 if os.environ.get('PYVC_QF_DUMP'):
                     print('PROVE', kind, label, self.path_id(), 'flat', len(flat), 'qf', len(qf), file=sys.stderr)
                 if len(qf) < len(flat):
-                    ngoal, insts = self.skolem_instances(goal, flat)
-                    insts = [c for c in insts if not has_quantifier(c)]
-                    insts += self.ctor_facts(qf + insts + [ngoal])
                     qf_ms = int(os.environ.get('PYVC_QF_MS', max(3000, self.d.budget.timeout_ms // 2)))
-                    r0 = None
-                    s0 = self._solver(qf_ms)
-                    s0.add(*qf)
-                    s0.add(*insts)
-                    s0.add(ngoal)
-                    s0.add(*ground_axioms(qf + insts + [ngoal]))
-                    if r0 is None:
+                    n_first = -1
+                    for second in (False, True):
+                        sk0 = getattr(self, '_sk', 0)
+                        ngoal, insts = self.skolem_instances(goal, flat, second_round=second)
+                        insts = [c for c in insts if not has_quantifier(c)]
+                        if second and len(insts) == n_first:
+                            break           # the second round found no witness position to instantiate at
+                        n_first = len(insts)
+                        insts += self.ctor_facts(qf + insts + [ngoal])
+                        s0 = self._solver(qf_ms)
+                        s0.add(*qf)
+                        s0.add(*insts)
+                        s0.add(ngoal)
+                        s0.add(*ground_axioms(qf + insts + [ngoal]))
                         r0 = str(s0.check())
+                        if r0 == 'unsat':
+                            break
                     if os.environ.get('PYVC_QF_DUMP'):
                         print('  QF', r0, s0.reason_unknown() if r0 == 'unknown' else '', len(insts), file=sys.stderr)
                     if r0 != 'unsat' and os.environ.get('PYVC_QF_DUMP'):
@@ -353,17 +359,28 @@ class PathRun:
         if self.d.ob_cache[key].verdict != 'failed' and assume:
             self.pc.append(goal)
 
-    def skolem_instances(self, goal, hyps=None):
+    def skolem_instances(self, goal, hyps=None, second_round=False):
         """(negated goal, instances of quantified hypotheses).  A goal `forall j: P(j)` is refuted at a fresh index j0.
         Universally quantified hypotheses over one integer are instantiated at j0, j0 - 1, j0 + 1 and at the ground index
         terms the (skolemised) goal reads sequences at; hypotheses over one value (the witness axioms of comprehension
         dicts) at the ground keys looked up in the goal and in those instances.  Sound: every instance follows from its
         hypothesis, and not P(j0) for a fresh j0 is equisatisfiable with not forall j: P(j)."""
         sks = []
-        if z3.is_quantifier(goal) and goal.is_forall() and all(goal.var_sort(k) == z3.IntSort() for k in range(goal.num_vars())):
+        side = []       # quantifier-free disjuncts of a goal `P or forall j: Q(j)` (also `P => forall ...`): all false in a refutation
+
+        def int_forall(g):
+            return z3.is_quantifier(g) and g.is_forall() and all(g.var_sort(k) == z3.IntSort() for k in range(g.num_vars()))
+        core = goal
+        if z3.is_implies(goal) and int_forall(goal.arg(1)) and not has_quantifier(goal.arg(0)):
+            side, core = [z3.Not(goal.arg(0))], goal.arg(1)
+        elif z3.is_or(goal):
+            qs = [d for d in goal.children() if has_quantifier(d)]
+            if len(qs) == 1 and int_forall(qs[0]):
+                side, core = [d for d in goal.children() if not has_quantifier(d)], qs[0]
+        if int_forall(core):
             self._sk = getattr(self, '_sk', 0) + 1
-            sks = [z3.Int(f'sk!{self._sk}!{k}') for k in range(goal.num_vars())]
-            ngoal = z3.Not(z3.substitute_vars(goal.body(), *reversed(sks)))
+            sks = [z3.Int(f'sk!{self._sk}!{k}') for k in range(core.num_vars())]
+            ngoal = z3.And(*[z3.Not(d) for d in side], z3.Not(z3.substitute_vars(core.body(), *reversed(sks))))
         else:
             ngoal = z3.Not(goal)
         cands, seen = [], set()
@@ -441,6 +458,7 @@ class PathRun:
                             cands.append(t)
         insts = []
         valq = []
+        intq1 = []
         for h in (hyps if hyps is not None else self.pc):
             if not (z3.is_quantifier(h) and h.is_forall()):
                 continue
@@ -451,12 +469,69 @@ class PathRun:
             if not all(h.var_sort(k) == z3.IntSort() for k in range(n)):
                 continue
             if n == 1:
+                intq1.append(h)
                 for c in cands:
                     insts.append(z3.substitute_vars(h.body(), c))
             elif n == 2 and sks:
                 for a in sks:
                     for b in sks:
                         insts.append(z3.substitute_vars(h.body(), a, b))
+
+        def witness_terms(formulas, have):
+            """ground applications of the witness functions of comprehensions (position of a source index in a filtered list,
+            source index of a position, position of a set / dict member) occurring in the formulas"""
+            out, memo = [], set()
+
+            def walk(e):
+                if e.get_id() in memo or z3.is_quantifier(e):
+                    return
+                memo.add(e.get_id())
+                if z3.is_app(e):
+                    if (e.sort() == z3.IntSort() and e.decl().kind() == z3.Z3_OP_UNINTERPRETED and e.num_args() > 0
+                            and e.decl().name().startswith(('FILT_pos', 'FILT_idx', 'SETOF_w', 'DICT_w'))
+                            and e.get_id() not in have and _is_ground_term(e, gcache) and len(out) < 6):
+                        have.add(e.get_id())
+                        out.append(e)
+                    for ch in e.children():
+                        walk(ch)
+            for f in formulas:
+                walk(f)
+            return out
+        # second round: the first-round instances name witness positions (where does source index j0 land in the filtered list,
+        # where does a member sit in the sequence a set was built from); the element axioms are needed there as well
+        if second_round and intq1 and valq:
+            first = list(insts)
+            dk = []
+            for h in valq:
+                syms = set()
+                _symbols(h, set(), syms)
+                if any(nm.startswith(('DICT_', 'SETOF')) for nm in syms):
+                    dk.append(h)
+            # witness axioms at the values the goal tests for membership (needed before their witness positions exist as terms)
+            pre_keys = []
+            memo_k = set()
+
+            def member_keys(e):
+                if e.get_id() in memo_k or z3.is_quantifier(e):
+                    return
+                memo_k.add(e.get_id())
+                if z3.is_app(e):
+                    if e.decl().kind() == z3.Z3_OP_SELECT and z3.is_app(e.arg(0)) and e.arg(0).decl().name().startswith(('DICT_', 'SETOF')) \
+                            and _is_ground_term(e.arg(1), gcache) and len(pre_keys) < 4:
+                        pre_keys.append(e.arg(1))
+                    for ch in e.children():
+                        member_keys(ch)
+            member_keys(ngoal)
+            for h in dk:
+                for k in pre_keys:
+                    first.append(z3.substitute_vars(h.body(), k))
+            wts = witness_terms(first + [ngoal], seen)
+            for h in intq1:
+                syms = set()
+                _symbols(h, set(), syms)
+                if any(nm.startswith(('FILT_', 'SETOF', 'DICT_')) for nm in syms):
+                    for w in wts:
+                        insts.append(z3.substitute_vars(h.body(), w))
         if valq:
             gcache2 = gcache
 
